@@ -5,7 +5,7 @@
    Later responders fired in any order, a network drop, application closes and the two
    connectionLost notifications at every point.                                          *)
 EXTENDS AmpRPC, TLC
-CONSTANTS MaxCalls, KindSet, MaxPerPeer, QC   \* QC: may an undeclared error close the connection? {TRUE}, {FALSE} or BOOLEAN
+CONSTANTS MaxCalls, KindSet, MaxPerPeer, Flags, QC   \* QC: may an undeclared error close the connection? {TRUE}, {FALSE} or BOOLEAN
 
 WS == [i \in 1..8 |-> 2]
 
@@ -17,8 +17,8 @@ Asc(S) == IF S = {} THEN <<>> ELSE LET x == CHOOSE y \in S : \A z \in S : y <= z
 NCallsBy(p) == Cardinality({c \in 1..ncall : caller[c] = p})
 
 (* the two peers are interchangeable: the first call is made by peer 1 (symmetry reduction by hand) *)
-CallRemote == \E p \in Peers, k \in KindSet : /\ ncall < MaxCalls /\ NCallsBy(p) < MaxPerPeer /\ (ncall = 0 => p = 1)
-                                              /\ Call(p, k, WS)
+CallRemote == \E p \in Peers, k \in KindSet, f \in Flags : /\ ncall < MaxCalls /\ NCallsBy(p) < MaxPerPeer /\ (ncall = 0 => p = 1)
+                                              /\ Call(p, k, f, WS)
 DeliverSome == \E p \in Peers : \E n \in 1..Avail(p) : \E qc \in QC : Deliver(p, n, WS, qc)
 FireLater == \E c \in 1..ncall : \E qc \in QC : Fire(c, WS, qc)
 AppClose == \E p \in Peers : ts[p] = "open" /\ UserClose(p)
@@ -27,7 +27,7 @@ ConnLost == \E p \in Peers, r \in {"ConnectionDone", "ConnectionLost"} : Notify(
 
 Next == CallRemote \/ DeliverSome \/ FireLater \/ AppClose \/ NetDrop \/ ConnLost
 Spec == Init /\ [][Next]_vars
-View == <<cfg, ncall, caller, kind, cst, res, nfire, rst, pipe, off, ts, net, why>>
+View == <<cfg, ncall, caller, kind, re, cst, res, nfire, rst, pipe, off, ts, net, why>>
 
 (* reachability witnesses used as negative controls (each must be VIOLATED, i.e. reachable) *)
 NoAnswerAfterOwnClose == ~(\E c \in 1..ncall : res[c][1] = "OK" /\ ts[Other(caller[c])] = "lost")
